@@ -619,6 +619,55 @@ class SymSeq(object):
         self.name = name
 
 
+class SymCompDict(object):
+    """{key(e): value(e) for e in seq} over a sequence of symbolic length.  A lookup is decided by a free choice:
+    found at a free position j (0 <= j < len, key(j) == the key looked up: assumed) or not found (KeyError).
+    Over-approximation: the not-found branch does not assume that no position matches, so everything proved holds
+    for the real dictionary; other uses (iteration, len, stores) are unsupported."""
+    _absent = ()
+
+    def __init__(self, interp, node, env, func, seq):
+        self.interp, self.node, self.env, self.func, self.seq = interp, node, env, func, seq
+        self.lookups = []            # (key looked up, hit, position or None, value or None)
+
+    def _pair(self, j):
+        g = self.node.generators[0]
+        e2 = Env(self.env.genv, self.env)
+        self.interp.assign(g.target, self.seq.item(j), e2, self.func)
+        return (self.interp.eval(self.node.key, e2, self.func), self.interp.eval(self.node.value, e2, self.func))
+
+    def __getitem__(self, x):
+        st = sym.get_state()
+        for (x0, hit, j, v) in self.lookups:
+            if x0 is x:
+                if hit:
+                    return v
+                raise ProgExc(KeyError, "key")
+        if st.choose(2, "comprehension-lookup") == 0:
+            j = st.fresh_int("comp_pos")
+            st.assume(0 <= j)
+            st.assume(j < self.seq.length)
+            k, v = self._pair(j)
+            st.assume(self.interp.compare(ast.Eq, k, x))
+            self.lookups.append((x, True, j, v))
+            return v
+        self.lookups.append((x, False, None, None))
+        raise ProgExc(KeyError, "key")
+
+    def __contains__(self, x):
+        try:
+            self[x]
+            return True
+        except ProgExc:
+            return False
+
+    def get(self, x, default=None):
+        try:
+            return self[x]
+        except ProgExc:
+            return default
+
+
 class Interp(object):
     def __init__(self, repo, package="nptdms"):
         self.repo = repo
@@ -1952,8 +2001,12 @@ class Interp(object):
         if t is ast.GeneratorExp:
             return self._comp(node.generators, 0, env, func, lambda e: self.eval(node.elt, e, func))
         if t is ast.DictComp:
-            pairs = list(self._comp(node.generators, 0, env, func,
-                                    lambda e: (self.eval(node.key, e, func), self.eval(node.value, e, func))))
+            it0 = self.eval(node.generators[0].iter, env, func)
+            if isinstance(it0, SymSeq) and len(node.generators) == 1 and not node.generators[0].ifs:
+                return SymCompDict(self, node, env, func, it0)
+            pairs = list(self._comp_iter(node.generators, 0, env, func,
+                                         lambda e: (self.eval(node.key, e, func), self.eval(node.value, e, func)),
+                                         it0))
             if any(_symbolic_key(k) for (k, _) in pairs):
                 d = {}
                 for (k, v) in pairs:                 # later equal keys overwrite earlier ones (decided symbolically)
